@@ -59,7 +59,9 @@ func wsWorker(role string) {
 	if role == "server" {
 		wsWorkerServer(frames, &obs, progress)
 	} else {
-		wsWorkerClient(frames, &obs, progress)
+		// "client": a client with a reverse handler; "client-plain": one without (the default): call frames from the
+		// server have nothing to run there and must be ignored, not crash the process
+		wsWorkerClient(frames, &obs, progress, role == "client")
 	}
 	b, _ := json.Marshal(obs)
 	fmt.Fprintf(out, "DONE %s\n", b)
@@ -170,7 +172,7 @@ type revHandler struct{ l *invLog }
 func (r *revHandler) Const() int        { r.l.add("Const"); return 42 }
 func (r *revHandler) EchoInt(a int) int { r.l.add("EchoInt", a); return a }
 
-func wsWorkerClient(frames []wsFrame, obs *wsBatchObs, progress func(int)) {
+func wsWorkerClient(frames []wsFrame, obs *wsBatchObs, progress func(int), withHandler bool) {
 	// fake server: accepts one connection, answers Sub with channel id 5, never answers Block, answers Ping
 	var up = websocket.Upgrader{}
 	type srvConn struct {
@@ -200,8 +202,11 @@ func wsWorkerClient(frames []wsFrame, obs *wsBatchObs, progress func(int)) {
 	defer ts.Close()
 	l := &invLog{}
 	var cl clientProxy
-	closer, err := jsonrpc.NewMergeClient(context.Background(), "ws"+strings.TrimPrefix(ts.URL, "http"), "H", []interface{}{&cl}, nil,
-		jsonrpc.WithClientHandler("R", &revHandler{l}), jsonrpc.WithNoReconnect(), jsonrpc.WithPingInterval(0))
+	copts := []jsonrpc.Option{jsonrpc.WithNoReconnect(), jsonrpc.WithPingInterval(0)}
+	if withHandler {
+		copts = append(copts, jsonrpc.WithClientHandler("R", &revHandler{l}))
+	}
+	closer, err := jsonrpc.NewMergeClient(context.Background(), "ws"+strings.TrimPrefix(ts.URL, "http"), "H", []interface{}{&cl}, nil, copts...)
 	if err != nil {
 		panic(err)
 	}
@@ -468,9 +473,19 @@ func wsFramesFamily(seed uint64, tier string, args []string) {
 		}
 		return frames
 	}
-	for _, role := range []string{"server", "client"} {
-		frames := mk(role)
-		if role == "client" {
+	for _, role := range []string{"server", "client", "client-plain"} {
+		frames := mk(strings.TrimSuffix(role, "-plain"))
+		if role == "client-plain" {
+			// the same stream thinned: what matters here are the call frames
+			var th []wsFrame
+			for i, f := range frames {
+				if i%5 == int(seed%5) || i < 40 {
+					th = append(th, f)
+				}
+			}
+			frames = th
+		}
+		if role != "server" {
 			// the client role has per-connection state (one subscription, one blocked call): smaller batches, fresh worker each
 			for i := 0; i < len(frames); i += 400 {
 				j := i + 400
